@@ -34,7 +34,16 @@ func c12FaultProfile(tier string) *eng.Profile {
 }
 
 func init() {
-	profileBuilders = append(profileBuilders, func(tier string) { Register(c12FaultProfile(tier)) })
+	profileBuilders = append(profileBuilders, func(tier string) {
+		Register(c12FaultProfile(tier))
+		mixed := c10Profile(tier)
+		mixed.Name = "crash-startmode"
+		mixed.Cfgs = nil
+		for _, m := range []int{core.KV, core.K, core.S} {
+			mixed.Cfgs = append(mixed.Cfgs, core.Cfg{Mode: m, RW: core.F, Start: core.M, Seg: 100}, core.Cfg{Mode: m, RW: core.M, Start: core.F, Seg: 100})
+		}
+		Register(mixed)
+	})
 	c12FaultPart = func(r *Run) { r.Explore(c12FaultProfile(r.Tier), "C12") }
 	c09CrashPart = func(r *Run) {
 		// every process-crash image of C10's and C16's workloads must open: the same enumeration,
@@ -42,5 +51,13 @@ func init() {
 		onlyOpen := func(v eng.Violation) bool { return v.Kind == "open-error" || v.Kind == "second-open-error" }
 		r.ExploreFiltered(c10Profile(r.Tier), onlyOpen, "C10")
 		r.ExploreFiltered(c16Profile(r.Tier), onlyOpen, "C16")
+		// the same crash images recovered with a StartFileLoadingMode different from the RWMode
+		mixed := c10Profile(r.Tier)
+		mixed.Name = "crash-startmode"
+		mixed.Cfgs = nil
+		for _, m := range []int{core.KV, core.K, core.S} {
+			mixed.Cfgs = append(mixed.Cfgs, core.Cfg{Mode: m, RW: core.F, Start: core.M, Seg: 100}, core.Cfg{Mode: m, RW: core.M, Start: core.F, Seg: 100})
+		}
+		r.ExploreFiltered(mixed, onlyOpen, "C10")
 	}
 }
